@@ -2,7 +2,7 @@
    ExtrOcamlBasic only: bool, option, unit, list, prod, sumbool map to OCaml's; numbers
    stay the extracted inductive types. *)
 From Coq Require Import List Arith NArith ZArith Extraction ExtrOcamlBasic.
-From CelloV Require Import Generated RobinHood TableModel.
+From CelloV Require Import Generated RobinHood TableModel TableLayout.
 
 Definition zt_table := table Z Z.
 Definition zt_empty : zt_table := t_empty Z Z table_primes table_load_num table_load_den.
@@ -17,6 +17,8 @@ Definition gc_ideal := ideal_size gc_primes gc_load_num gc_load_den.
 
 Definition int_hash (k : Z) : N := Z.to_N (k mod 18446744073709551616)%Z.
 Definition z_ltb := Z.ltb.
+Definition zt_size_round := size_round.
+Definition zt_slot_body := slot_body.
 
 Extraction Language OCaml.
-Extraction "../ocaml/gen/Table.ml" zt_empty zt_new zt_step zt_iter zt_slots zt_nitems zs_step zt_ideal gc_ideal int_hash z_ltb.
+Extraction "../ocaml/gen/Table.ml" zt_empty zt_new zt_step zt_iter zt_slots zt_nitems zs_step zt_ideal gc_ideal int_hash z_ltb zt_size_round zt_slot_body.
